@@ -104,6 +104,200 @@ theorem temporalCheck_spec (dist : Pos → Pos → α) (r : α) (mi : Int) (A B 
       refine ⟨((a, b), d'), hz, ?_⟩
       simp only [hx, hy, (closeT_iff_natAbs _ _ _).mpr hc, if_true, hd, ivOf]
 
+/-! ### `_to_original`, `_create_return` -/
+
+/-- id pair, interval and distance of an entry whose indices refer to the selected,
+flattened datasets -/
+def idOf (fp fs : List (Pt Pos)) (k : (Nat × Nat) × Int × α) : Option ((Nat × Nat) × Int × α) :=
+  match fp[k.1.1]?, fs[k.1.2]? with
+  | some a, some b => some ((a.id, b.id), k.2.1, k.2.2)
+  | _, _ => none
+
+theorem compact_get (fp : List (Pt Pos)) (xs : List Nat) (hx : ∀ x ∈ xs, x < fp.length) (x : Nat)
+    (hmem : x ∈ xs) :
+    ((uniqueFirst xs).filterMap (fp[·]?))[(uniqueFirst xs).idxOf x]? = fp[x]? := by
+  have hu : ∀ i ∈ uniqueFirst xs, i < fp.length := fun i hi => hx i ((mem_uniqueFirst xs i).mp hi)
+  rw [getElem?_filterMap_getElem? fp (uniqueFirst xs) hu,
+    List.getElem?_idxOf ((mem_uniqueFirst xs x).mpr hmem)]
+  rfl
+
+/-- **compaction**: the compact dataset built by `_create_return` carries, for the k-th
+collocation, exactly the data points the k-th original index pair refers to -/
+theorem createReturn_idPairs (fp fs : List (Pt Pos)) (K : List ((Nat × Nat) × Int × α))
+    (hr : ∀ k ∈ K, k.1.1 < fp.length ∧ k.1.2 < fs.length) :
+    (K = [] → createReturn fp fs (K.map (·.1)) (K.map (·.2.1)) (K.map (·.2.2)) = .ok none) ∧
+    (K ≠ [] → ∃ res, createReturn fp fs (K.map (·.1)) (K.map (·.2.1)) (K.map (·.2.2)) =
+        .ok (some res) ∧ res.idPairs = K.filterMap (idOf fp fs)) := by
+  constructor
+  · intro h; subst h; simp [createReturn]
+  · intro hne
+    have he : (K.map (·.1)).isEmpty = false := by cases K <;> simp_all
+    have hguard : ((K.map (·.1)).all fun o => decide (o.1 < fp.length) && decide (o.2 < fs.length))
+        = true := by
+      rw [List.all_eq_true]
+      intro o ho
+      obtain ⟨k, hk, rfl⟩ := List.mem_map.mp ho
+      simp [(hr k hk).1, (hr k hk).2]
+    unfold createReturn
+    simp only [he, Bool.false_eq_true, if_false, hguard, if_true]
+    refine ⟨_, rfl, ?_⟩
+    unfold Result.idPairs
+    simp only [List.map_map]
+    rw [List.zip_map', List.zip_map', List.filterMap_map]
+    apply List.filterMap_congr
+    intro k hk
+    have e1 := compact_get fp ((K.map (·.1)).map (·.1)) (by
+      intro x hx
+      obtain ⟨o, ho, rfl⟩ := List.mem_map.mp hx
+      obtain ⟨k', hk', rfl⟩ := List.mem_map.mp ho
+      exact (hr k' hk').1) k.1.1 (List.mem_map.mpr ⟨k.1, List.mem_map.mpr ⟨k, hk, rfl⟩, rfl⟩)
+    have e2 := compact_get fs ((K.map (·.1)).map (·.2)) (by
+      intro x hx
+      obtain ⟨o, ho, rfl⟩ := List.mem_map.mp hx
+      obtain ⟨k', hk', rfl⟩ := List.mem_map.mp ho
+      exact (hr k' hk').2) k.1.2 (List.mem_map.mpr ⟨k.1, List.mem_map.mpr ⟨k, hk, rfl⟩, rfl⟩)
+    simp only [Function.comp, List.map_map] at e1 e2 ⊢
+    rw [e1, e2]
+    rfl
+
+theorem toOriginal_ok (nn1 nn2 : List Nat) (pairs : List (Nat × Nat))
+    (h : ∀ p ∈ pairs, p.1 < nn1.length ∧ p.2 < nn2.length) :
+    toOriginal nn1 nn2 pairs = .ok (pairs.map (fun p => (nn1.getD p.1 0, nn2.getD p.2 0))) := by
+  unfold toOriginal
+  have : (pairs.all fun p => decide (p.1 < nn1.length) && decide (p.2 < nn2.length)) = true := by
+    rw [List.all_eq_true]; intro p hp; simp [(h p hp).1, (h p hp).2]
+  simp [this]
+
+/-! ### collocations by carried id -/
+
+/-- `(i, j, iv, d)` is a collocation of the selected, flattened datasets: two points
+with these ids, both with valid position, within distance and interval; `iv` is their
+`⌊|Δt|⌋` in seconds and `d` their distance in km -/
+def CollocatedSel (dist : Pos → Pos → α) (r : α) (mi : Int) (fp fs : List (Pt Pos))
+    (i j : Nat) (iv : Int) (d : α) : Prop :=
+  ∃ x ∈ fp, ∃ y ∈ fs, x.id = i ∧ y.id = j ∧ ∃ px py, x.pos = some px ∧ y.pos = some py ∧
+    near dist r px py ∧ closeT mi x.time y.time ∧
+    iv = ivOf x.time y.time ∧ d = distKm .minkowski dist px py
+
+/-- entries of `kept` re-indexed by `_to_original` -/
+def reindex (nn1 nn2 : List Nat) (kept : List ((Nat × Nat) × Int × α)) :
+    List ((Nat × Nat) × Int × α) :=
+  kept.map (fun k => ((nn1.getD k.1.1 0, nn2.getD k.1.2 0), k.2.1, k.2.2))
+
+theorem kept_range (dist : Pos → Pos → α) (r : α) (mi : Int) (A B : List (NPt Pos))
+    (kept : List ((Nat × Nat) × Int × α)) (hk : KeptSpec dist r mi A B kept) :
+    ∀ k ∈ kept, k.1.1 < A.length ∧ k.1.2 < B.length := by
+  rintro ⟨⟨a, b⟩, iv, d⟩ hmem
+  obtain ⟨x, y, hx, hy, _⟩ := (hk.2 a b iv d).mp hmem
+  exact ⟨(List.getElem?_eq_some_iff.mp hx).1, (List.getElem?_eq_some_iff.mp hy).1⟩
+
+theorem getD_of_getElem? (l : List Nat) (a i : Nat) (h : l[a]? = some i) : l.getD a 0 = i := by
+  simp [List.getD_eq_getElem?_getD, h]
+
+theorem reindex_range (dist : Pos → Pos → α) (r : α) (mi : Int) (fp fs : List (Pt Pos))
+    (kept : List ((Nat × Nat) × Int × α))
+    (hk : KeptSpec dist r mi (dropNan fp) (dropNan fs) kept) :
+    ∀ k ∈ reindex (notNanIdx fp) (notNanIdx fs) kept, k.1.1 < fp.length ∧ k.1.2 < fs.length := by
+  intro k hk'
+  obtain ⟨⟨⟨a, b⟩, iv, d⟩, hmem, rfl⟩ := List.mem_map.mp hk'
+  obtain ⟨x, y, hx, hy, _⟩ := (hk.2 a b iv d).mp hmem
+  obtain ⟨i, p, hi, hp, _⟩ := nn_row fp a x hx
+  obtain ⟨j, q, hj, hq, _⟩ := nn_row fs b y hy
+  simp only [getD_of_getElem? _ _ _ hi, getD_of_getElem? _ _ _ hj]
+  exact ⟨(List.getElem?_eq_some_iff.mp hp).1, (List.getElem?_eq_some_iff.mp hq).1⟩
+
+/-- the id pairs read off the re-indexed entries are exactly the collocations -/
+theorem mem_idPairs_iff (dist : Pos → Pos → α) (r : α) (mi : Int) (fp fs : List (Pt Pos))
+    (kept : List ((Nat × Nat) × Int × α))
+    (hk : KeptSpec dist r mi (dropNan fp) (dropNan fs) kept) (i j : Nat) (iv : Int) (d : α) :
+    ((i, j), iv, d) ∈ (reindex (notNanIdx fp) (notNanIdx fs) kept).filterMap (idOf fp fs) ↔
+      CollocatedSel dist r mi fp fs i j iv d := by
+  rw [List.mem_filterMap]
+  constructor
+  · rintro ⟨k, hk', hid⟩
+    obtain ⟨⟨⟨a, b⟩, iv', d'⟩, hmem, rfl⟩ := List.mem_map.mp hk'
+    obtain ⟨x, y, hx, hy, hn, hc, rfl, rfl⟩ := (hk.2 a b iv' d').mp hmem
+    obtain ⟨i0, p, hi, hp, hp1, hp2⟩ := nn_row fp a x hx
+    obtain ⟨j0, q, hj, hq, hq1, hq2⟩ := nn_row fs b y hy
+    simp only [idOf, getD_of_getElem? _ _ _ hi, getD_of_getElem? _ _ _ hj, hp, hq,
+      Option.some.injEq, Prod.mk.injEq] at hid
+    obtain ⟨⟨rfl, rfl⟩, rfl, rfl⟩ := hid
+    exact ⟨p, List.mem_of_getElem? hp, q, List.mem_of_getElem? hq, rfl, rfl, x.pos, y.pos, hp1, hq1,
+      hn, by rw [hp2, hq2]; exact hc, by rw [hp2, hq2], rfl⟩
+  · rintro ⟨p, hp, q, hq, rfl, rfl, px, py, hp1, hq1, hn, hc, rfl, rfl⟩
+    obtain ⟨a, i0, ha, hi, hpi⟩ := nn_row_of_mem fp p hp px hp1
+    obtain ⟨b, j0, hb, hj, hqj⟩ := nn_row_of_mem fs q hq py hq1
+    have hmem : ((a, b), ivOf p.time q.time, distKm .minkowski dist px py) ∈ kept :=
+      (hk.2 a b _ _).mpr ⟨_, _, ha, hb, hn, hc, rfl, rfl⟩
+    refine ⟨_, List.mem_map.mpr ⟨_, hmem, rfl⟩, ?_⟩
+    simp only [idOf, getD_of_getElem? _ _ _ hi, getD_of_getElem? _ _ _ hj, hpi, hqj]
+
+theorem reindex_fst_nodup (dist : Pos → Pos → α) (r : α) (mi : Int) (fp fs : List (Pt Pos))
+    (kept : List ((Nat × Nat) × Int × α))
+    (hk : KeptSpec dist r mi (dropNan fp) (dropNan fs) kept) :
+    ((reindex (notNanIdx fp) (notNanIdx fs) kept).map (·.1)).Nodup := by
+  unfold reindex
+  rw [List.map_map]
+  have : ((fun k : (Nat × Nat) × Int × α => k.1) ∘
+      fun k : (Nat × Nat) × Int × α => (((notNanIdx fp).getD k.1.1 0, (notNanIdx fs).getD k.1.2 0), k.2.1, k.2.2))
+      = (fun o : Nat × Nat => ((notNanIdx fp).getD o.1 0, (notNanIdx fs).getD o.2 0)) ∘ (·.1) := by
+    funext k; rfl
+  rw [this, ← List.map_map]
+  refine List.Nodup.map_on ?_ hk.1
+  rintro ⟨a, b⟩ hx ⟨a', b'⟩ hy hxy
+  obtain ⟨k, hk1, hk2⟩ := List.mem_map.mp hx
+  obtain ⟨k', hk1', hk2'⟩ := List.mem_map.mp hy
+  have r1 := kept_range dist r mi _ _ kept hk k hk1
+  have r2 := kept_range dist r mi _ _ kept hk k' hk1'
+  rw [hk2] at r1; rw [hk2'] at r2
+  simp only [Prod.mk.injEq] at hxy
+  simp only at r1 r2
+  rw [← length_notNanIdx, ← length_notNanIdx] at r1 r2
+  have inj : ∀ (l : List Nat), l.Nodup → ∀ u v, u < l.length → v < l.length →
+      l.getD u 0 = l.getD v 0 → u = v := by
+    intro l hl u v hu hv h
+    simp only [List.getD_eq_getElem?_getD, List.getElem?_eq_getElem hu, List.getElem?_eq_getElem hv,
+      Option.getD_some] at h
+    exact (hl.getElem_inj_iff).mp h
+  rw [inj _ (notNanIdx_nodup fp) a a' r1.1 r2.1 hxy.1, inj _ (notNanIdx_nodup fs) b b' r1.2 r2.2 hxy.2]
+
+/-- with unique ids, no id pair is reported twice -/
+theorem idPairs_nodup (dist : Pos → Pos → α) (r : α) (mi : Int) (fp fs : List (Pt Pos))
+    (kept : List ((Nat × Nat) × Int × α))
+    (hk : KeptSpec dist r mi (dropNan fp) (dropNan fs) kept)
+    (hid1 : (fp.map (·.id)).Nodup) (hid2 : (fs.map (·.id)).Nodup) :
+    (((reindex (notNanIdx fp) (notNanIdx fs) kept).filterMap (idOf fp fs)).map (·.1)).Nodup := by
+  have hnd := reindex_fst_nodup dist r mi fp fs kept hk
+  rw [List.Nodup, List.pairwise_map] at hnd ⊢
+  refine List.Pairwise.filterMap _ ?_ hnd
+  intro k k' hne b hb b' hb' heq
+  apply hne
+  unfold idOf at hb hb'
+  cases h1 : fp[k.1.1]? with
+  | none => simp [h1] at hb
+  | some x =>
+  cases h2 : fs[k.1.2]? with
+  | none => simp [h1, h2] at hb
+  | some y =>
+  cases h3 : fp[k'.1.1]? with
+  | none => simp [h3] at hb'
+  | some x' =>
+  cases h4 : fs[k'.1.2]? with
+  | none => simp [h3, h4] at hb'
+  | some y' =>
+  simp only [h1, h2, h3, h4, Option.some.injEq] at hb hb'
+  subst hb; subst hb'
+  simp only [Prod.mk.injEq] at heq
+  have injid : ∀ (l : List (Pt Pos)), (l.map (·.id)).Nodup → ∀ (u v : Nat) (a b : Pt Pos),
+      l[u]? = some a → l[v]? = some b → a.id = b.id → u = v := by
+    intro l hl u v a b hu hv hab
+    obtain ⟨hu', rfl⟩ := List.getElem?_eq_some_iff.mp hu
+    obtain ⟨hv', rfl⟩ := List.getElem?_eq_some_iff.mp hv
+    have := (hl.getElem_inj_iff (i := u) (j := v) (hi := by simpa using hu') (hj := by simpa using hv')).mp
+      (by simpa using hab)
+    exact this
+  exact Prod.ext (injid fp hid1 _ _ _ _ h1 h3 heq.1) (injid fs hid2 _ _ _ _ h2 h4 heq.2)
+
 end Pipe
 
 end Colloc
